@@ -769,6 +769,255 @@ def gen_sequences(ctx, alphabet):
     return seqs
 
 
+# ------------------------------------------------------------------ failing requests with hostile client-controlled text
+# Every endpoint that can fail is sent requests that DO fail (or may fail) and whose client-controlled parts - body text, percent-encoded
+# path segments, JSON string members, model / invocable / input names, type names and lexical forms of TCK values, Base64 content that
+# decodes to text, namespace / name / decision logic of a submitted model - contain characters that a hand-made JSON writer gets wrong.
+# Oracle (unchanged): the answer parses with the strict parser above, is an object with exactly one of data / errors, errors is a list
+# of {details: text}; where the request cannot succeed the member must be `errors`; plus: a text the service echoes must not come back
+# as "the same characters read as JSON escapes" (`dev\bin` decoding to dev<U+0008>in is a body written without escaping).
+HOSTILE_CHARS = [('quotation mark', '"'), ('reverse solidus', '\\'), ('solidus', '/'), ('NUL', '\x00'), ('U+0001', '\x01'), ('backspace', '\x08'), ('tab', '\t'),
+                 ('line feed', '\n'), ('form feed', '\x0c'), ('carriage return', '\r'), ('escape', '\x1b'), ('U+001F', '\x1f'), ('delete U+007F', '\x7f'),
+                 ('next line U+0085', '\x85'), ('line separator U+2028', '\u2028'), ('paragraph separator U+2029', '\u2029'), ('U+FFFF', '\uffff'),
+                 ('non-BMP U+1F600', '\U0001F600'), ('non-BMP U+10FFFF', '\U0010FFFF'), ('apostrophe', "'"), ('percent sign', '%')]
+# texts that are well-formed JSON escape sequences when copied into a JSON string unescaped: the body parses, the message is another one
+HOSTILE_LOOKALIKES = ['dev\\bin', 'a\\nb', 'a\\tb', 'x\\u0041y', 'x\\/y', 'C:\\\\temp', 'say \\"hi\\"', 'q\\ud83d\\ude00', 'tail\\', '\\', '\\\\', '\\u00', '\\ud800', 'a\r\nb', '%5C%0A', '&#10;&quot;']
+XML_OK = lambda c: c in (9, 10, 13) or 0x20 <= c <= 0xD7FF or 0xE000 <= c <= 0xFFFD or 0x10000 <= c <= 0x10FFFF
+
+
+def hostile_texts(ctx):
+    """[(class label, text)]"""
+    rng = ctx.rng
+    out = []
+    for label, ch in HOSTILE_CHARS:
+        forms = ['a%sb' % ch, ch, 'ab' + ch, ch + ch + 'z']
+        for f in (forms if ctx.tier != 'quick' else [forms[0], rng.choice(forms[1:])]):
+            out.append((label, f))
+    for t in HOSTILE_LOOKALIKES:
+        out.append(('escape look-alike', t))
+    out.append(('all of them', 'm' + ''.join(ch for _, ch in HOSTILE_CHARS) + 'z'))
+    for _ in range(ctx.pick(6, 200)):
+        out.append(('random mix', ''.join(rng.choice([rng.choice(HOSTILE_CHARS)[1], rng.choice('abz 1{}:,[]')]) for _ in range(rng.randint(2, 12)))))
+    out.append(('very long text', 'L' * 20000 + '\\' + '\n' + 'x' * 20000))
+    out.append(('very long text', ('long "q" \\ \t' * 4000)))
+    out.append(('very long text', 'y' * 200000))
+    return out
+
+
+def pct(t, keep=''):
+    from urllib.parse import quote
+    return quote(t.encode('utf-8', 'surrogatepass'), safe=keep)
+
+
+def xml_attr(t):
+    """attribute value that denotes t: character references for everything XML would normalise or that is markup"""
+    return ''.join(ch if (ch.isalnum() and ord(ch) < 128) or ch in ' .-_' else '&#%d;' % ord(ch) for ch in t)
+
+
+def json_forms(obj, rng):
+    """two well-formed JSON texts of the same document: ASCII with \\u escapes (surrogate pairs), and raw UTF-8 with short escapes"""
+    return [json.dumps(obj), json.dumps(obj, ensure_ascii=False)]
+
+
+def mangled(t):
+    """what a JSON reader makes of t copied between quotation marks with only the quotation marks escaped (None: not well-formed)"""
+    try:
+        v = strict_parse('"' + t.replace('"', '\\"') + '"')
+    except (Bad, RecursionError):
+        return None
+    return v[1] if v[1] != t else None
+
+
+def hostile_model(ns, name, logic='1'):
+    return ('<?xml version="1.0" encoding="UTF-8"?><definitions namespace="%s" name="%s" id="dh" %s><decision name="dec" id="kh"><variable name="dec"/>'
+            '<literalExpression><text>%s</text></literalExpression></decision></definitions>' % (ns, name, XMLNS, logic))
+
+
+def hostile_requests_for(label, t, rng, full=True):
+    """[(placement, method, path, body, ctype, expect)] expect: 'errors' (the request cannot succeed) | 'any'.  No setup needed."""
+    R = []
+    short = len(t) <= 3000
+    tq = pct(t)
+    if not short:
+        # long texts: only where the text is echoed or decoded as a whole
+        if len(tq) <= 30000:
+            R.append(('evaluate: model name in the path', 'POST', '/evaluate/%s/dec' % tq, '{}', 'text/plain', 'errors'))
+        R.append(('evaluate: malformed body (unclosed context ending in the text)', 'POST', '/evaluate/m11/dec', '{x: ' + t, 'text/plain', 'errors'))
+        R.append(('evaluate: body is the text', 'POST', '/evaluate/m11/dec', t, 'text/plain', 'errors'))
+        R.append(('tck: model name', 'POST', '/tck/evaluate', jd({'model': t, 'invocable': 'dec', 'input': []}), 'application/json', 'errors'))
+        R.append(('tck: lexical form of xsd:date', 'POST', '/tck/evaluate', jd({'model': 'm11', 'invocable': 'dec', 'input': [{'name': 'x', 'value': {'simple': {'type': 'xsd:date', 'text': t, 'isNil': False}}}]}), 'application/json', 'any'))
+        R.append(('add: content decodes to the text (not XML)', 'POST', '/definitions/add', jd({'content': b64(t)}), 'application/json', 'errors'))
+        R.append(('replace: content is the text (not Base64 of a model)', 'POST', '/definitions/replace', jd({'content': t}), 'application/json', 'errors'))
+        R.append(('remove: name missing', 'POST', '/definitions/remove', jd({'namespace': t}), 'application/json', 'errors'))
+        return R
+    if len(tq) <= 30000:           # the request head is limited by the HTTP layer (32 KiB in actix-http), see the assumptions
+        R.append(('evaluate: model name in the path', 'POST', '/evaluate/%s/dec' % tq, '{}', 'text/plain', 'errors'))
+        R.append(('evaluate: invocable name in the path', 'POST', '/evaluate/m11/%s' % tq, '{x: 1}', 'text/plain', 'any'))
+        R.append(('evaluate: both names in the path, body spanning lines', 'POST', '/evaluate/%s/%s' % (tq, tq) if len(tq) < 30000 else '/evaluate/%s/d' % tq, '{\n\tx: 1\n}', 'text/plain', 'errors'))
+        R.append(('no such endpoint', rng.choice(['GET', 'POST']), '/%s' % tq, None, None, 'errors'))
+        R.append(('no such endpoint under /definitions', 'POST', '/definitions/%s' % tq, '{}', 'application/json', 'errors'))
+    R.append(('evaluate: malformed body (unclosed context ending in the text)', 'POST', '/evaluate/m11/dec', '{x: ' + t, 'text/plain', 'errors' if '}' not in t else 'any'))
+    R.append(('evaluate: body is the text', 'POST', '/evaluate/m11/dec', t, 'text/plain', 'any' if t.strip().startswith('{') else 'errors'))
+    R.append(('evaluate: text raw inside a string of the body', 'POST', '/evaluate/m11/dec', '{x: "' + t + '"}', 'text/plain', 'any'))
+    R.append(('evaluate: malformed body spanning lines', 'POST', '/evaluate/m11/dec', '{\n  x: 1,\n\ty: ' + t + '\n  z: \n', 'text/plain', 'any'))
+    R.append(('evaluate: text as FEEL string, unknown model', 'POST', '/evaluate/nomodel/dec', '{x: %s}' % feel_string(t), 'text/plain', 'errors'))
+    val = lambda ty, tx: {'simple': {'type': ty, 'text': tx, 'isNil': False}}
+    tck = [('tck: model name', {'model': t, 'invocable': 'dec', 'input': []}, 'errors'),
+           ('tck: invocable name', {'model': 'm11', 'invocable': t, 'input': []}, 'any'),
+           ('tck: input name', {'model': 'm11', 'invocable': 'dec', 'input': [{'name': t, 'value': val('xsd:decimal', '1')}]}, 'any'),
+           ('tck: type name', {'model': 'm11', 'invocable': 'dec', 'input': [{'name': 'x', 'value': val(t, '1')}]}, 'errors'),
+           ('tck: component name', {'model': 'm11', 'invocable': 'dec', 'input': [{'name': 'x', 'value': {'components': [{'name': t, 'value': val('xsd:string', t), 'isNil': False}]}}]}, 'any')]
+    for ty in ('xsd:decimal', 'xsd:date', 'xsd:time', 'xsd:dateTime', 'xsd:duration', 'xsd:boolean', 'xsd:double'):
+        tck.append(('tck: lexical form of %s' % ty, {'model': 'm11', 'invocable': 'dec', 'input': [{'name': 'x', 'value': val(ty, t)}]}, 'any'))
+    for pl, obj, exp in tck:
+        for body in (json_forms(obj, rng) if full else [rng.choice(json_forms(obj, rng))]):
+            R.append((pl, 'POST', '/tck/evaluate', body, 'application/json', exp))
+    for ep in ('add', 'replace'):
+        R.append(('%s: content decodes to the text (not XML)' % ep, 'POST', '/definitions/' + ep, jd({'content': b64(t)}), 'application/json', 'errors'))
+        R.append(('%s: content is the text (not Base64 of a model)' % ep, 'POST', '/definitions/' + ep, rng.choice(json_forms({'content': t}, rng)), 'application/json', 'errors'))
+        R.append(('%s: XML with the text in an attribute, not a model' % ep, 'POST', '/definitions/' + ep, jd({'content': b64('<a b="%s">%s</a>' % (xml_attr(t), xml_attr(t)))}), 'application/json', 'errors'))
+        R.append(('%s: model with the raw text between the tags' % ep, 'POST', '/definitions/' + ep, jd({'content': b64(hostile_model('nsh', 'mh') + t)}), 'application/json', 'any'))
+        R.append(('%s: body is not JSON, contains the raw text' % ep, 'POST', '/definitions/' + ep, '{"content": "' + t, 'application/json', 'errors'))
+        R.append(('%s: unknown member named by the text, content missing' % ep, 'POST', '/definitions/' + ep, jd({t: t}), 'application/json', 'errors' if t != 'content' else 'any'))
+        R.append(('%s: content of the wrong type next to the text' % ep, 'POST', '/definitions/' + ep, jd({'content': [t]}), 'application/json', 'errors'))
+    R.append(('remove: namespace and name', 'POST', '/definitions/remove', rng.choice(json_forms({'namespace': t, 'name': t}, rng)), 'application/json', 'any'))
+    R.append(('remove: name missing', 'POST', '/definitions/remove', jd({'namespace': t}), 'application/json', 'errors'))
+    R.append(('remove: body is not JSON', 'POST', '/definitions/remove', '{"namespace": "' + t + '}', 'application/json', 'any' if mangled(t + '}') is not None or '"' in t else 'errors'))
+    return R
+
+
+LONE_SURROGATE_BODIES = [
+    ('tck: lone surrogate escape in the model name', '/tck/evaluate', '{"model": "a\\ud800b", "invocable": "dec", "input": []}'),
+    ('tck: lone low surrogate escape in the invocable name', '/tck/evaluate', '{"model": "m11", "invocable": "\\udc00", "input": []}'),
+    ('tck: lone surrogate escape in a lexical form', '/tck/evaluate', '{"model": "m11", "invocable": "dec", "input": [{"name": "x", "value": {"simple": {"type": "xsd:string", "text": "\\ud83d", "isNil": false}}}]}'),
+    ('tck: surrogate pair escape in a lexical form', '/tck/evaluate', '{"model": "m11", "invocable": "dec", "input": [{"name": "x", "value": {"simple": {"type": "xsd:decimal", "text": "\\ud83d\\ude00\\\\", "isNil": false}}}]}'),
+    ('add: lone surrogate escape in the content', '/definitions/add', '{"content": "QUJD\\udfff"}'),
+    ('replace: lone surrogate escape in the content', '/definitions/replace', '{"content": "\\ud800\\ud800"}'),
+    ('remove: lone surrogate escape in the namespace', '/definitions/remove', '{"namespace": "\\ud800", "name": "m"}'),
+    ('remove: reversed surrogate pair escape', '/definitions/remove', '{"namespace": "\\udc00\\ud800", "name": "m"}'),
+    ('add: member name with a lone surrogate escape', '/definitions/add', '{"\\ud800": 1}'),
+    ('add: raw control characters in a JSON string', '/definitions/add', '{"content": "a\tb\nc\x00d"}'),
+    ('tck: raw control characters in a JSON string', '/tck/evaluate', '{"model": "a\x1f\\", "invocable": "dec", "input": []}'),
+]
+BAD_PATHS = ['%', '%zz', '%5', '%FF', '%C0%AF', '%ED%A0%80', '%F4%90%80%80', '%00', '%2F', '%252F', '..%2F..', '%E2%80%A8%5C', 'a%0D%0Ab', '%5C%22%0A']
+
+
+def hostile_verdict(resp, got, t, expect):
+    """None, or what is wrong with the answer `resp` (classified as `got`) to a request carrying the text t"""
+    if got[0] in ('malformed', 'transport'):
+        return ': the answer is not a well-formed JSON result document: %s' % (got[1],)
+    if expect == 'errors' and got[0] != 'errors':
+        return 'cannot succeed but the failure is not reported in the errors member: %s' % jd(plain_json(got[1][1]))[:300]
+    # texts of the answer: a text echoed must not be "the same characters read as JSON escapes"
+    m = mangled(t) if len(t) <= 400 else None
+    if m:
+        strings = []
+
+        def walk(d):
+            if d is None or isinstance(d, bool):
+                return
+            if d[0] == 's':
+                strings.append(d[1])
+            elif d[0] == 'l':
+                for x in d[1]:
+                    walk(x)
+            elif d[0] == 'c':
+                for _, x in d[1]:
+                    walk(x)
+        walk(got[1][1])
+        if any(m in x and t not in x for x in strings):
+            return ': the answer is well-formed but carries %r where the text sent is %r: the body was written without escaping' % (m, t)
+    return None
+
+
+def hostile_phase(ctx, svc):
+    """-> (number of requests, histogram placement -> count, histogram class of text -> count)"""
+    rng = ctx.rng
+    n_req, hp, hc = 0, {}, {}
+    texts = hostile_texts(ctx)
+
+    def judge(setup, placement, label, t, method, path, body, ctype, expect):
+        nonlocal n_req
+        resp = svc.req(method, path, body, ctype)
+        n_req += 1
+        ctx.evaluations += 1
+        ctx.corr_checked += 1
+        hp[placement] = hp.get(placement, 0) + 1
+        hc[label] = hc.get(label, 0) + 1
+        got = classify(resp)
+        case = {'hostile': placement, 'text_class': label, 'expect': expect, 'text': [ord(c) for c in t] if len(t) <= 400 else {'length': len(t), 'head': [ord(c) for c in t[:60]]}, 'setup': setup,
+                'request': {'method': method, 'path': path if len(path) < 5000 else path[:200] + '...', 'content_type': ctype,
+                            'body': (body[:600] if body is not None else None)},
+                'replay_request': {'method': method, 'path': path, 'content_type': ctype, 'body_b64': base64.b64encode(body.encode('utf-8')).decode() if body is not None else None}}
+        shown = '%s %s%s' % (method, path[:160], (' body %r' % body[:160]) if body is not None else '')
+        if got[0] == 'transport' and '\x00' in t and placement.startswith(('tck: lexical form of xsd:decimal', 'tck: lexical form of xsd:double')) and ctx.known('number-text-with-nul', case):
+            # listed finding, claimed for its own input class and symptom only: a TCK number text holding U+0000, no response at all
+            hp['(listed finding number-text-with-nul)'] = hp.get('(listed finding number-text-with-nul)', 0) + 1
+            return None
+        bad = hostile_verdict(resp, got, t, expect)
+        if bad:
+            ctx.violation('%s (text: %s) - request %s %s' % (placement, label, shown, bad), case, impl=str(resp)[:600])
+            return None
+        if got[0] == 'errors' and any(ord(c) < 32 or c in '"\\' for c in t):
+            ctx.nontrivial.add((placement, t[:40]))
+        return got
+
+    # (1) requests that need no particular state: against the empty workspace and against a workspace with a deployed model m11
+    for state in ('empty', 'deployed'):
+        svc.req('POST', '/definitions/clear')
+        setup = [['POST', '/definitions/clear', None]]
+        if state == 'deployed':
+            svc.req('POST', '/definitions/add', jd({'content': b64(c17.XMLS[0])}))
+            svc.req('POST', '/definitions/deploy')
+            setup += [['POST', '/definitions/add', jd({'content': b64(c17.XMLS[0])})], ['POST', '/definitions/deploy', None]]
+        for label, t in texts:
+            if state == 'deployed' and ctx.tier == 'quick' and (len(t) > 3000 or (label != 'all of them' and rng.random() < 0.6)):
+                continue
+            for placement, method, path, body, ctype, expect in hostile_requests_for(label, t, rng, full=ctx.tier != 'quick'):
+                judge(setup, placement + ' [' + state + ' workspace]', label, t, method, path, body, ctype, expect)
+            if not svc.alive():
+                ctx.violation('after failing requests carrying %s the service no longer answers GET /system/info' % label, {'hostile': 'liveness', 'text': [ord(c) for c in t[:400]]})
+                return n_req, hp, hc
+        for placement, path, body in LONE_SURROGATE_BODIES:
+            judge(setup, placement + ' [' + state + ' workspace]', 'surrogate escape / raw control in JSON', '', 'POST', path, body, 'application/json', 'errors' if 'pair' not in placement else 'any')
+        for bp in BAD_PATHS:
+            judge(setup, 'evaluate: malformed or unusual percent-encoding in the path [' + state + ' workspace]', 'percent-encoding', '', 'POST', '/evaluate/%s/%s' % (bp, bp), '{}', 'text/plain', 'errors')
+            judge(setup, 'no such endpoint: percent-encoding [' + state + ' workspace]', 'percent-encoding', '', 'GET', '/system/%s' % bp, None, None, 'errors')
+    # (2) the text as namespace / name / decision logic of a submitted model: add, add again, deploy, evaluate by that name, replace, remove
+    for label, t in texts:
+        if len(t) > 3000:
+            continue
+        ok_xml = all(XML_OK(ord(c)) for c in t)
+        nsname = (xml_attr(t), xml_attr(t)) if ok_xml else (xml_escape(t), xml_escape(t))       # characters XML excludes go in raw: the document is refused
+        docs = [('model named by the text', hostile_model(nsname[0], nsname[1])),
+                ('model whose decision logic is the text', hostile_model('nsl', 'ml', xml_escape(t) if ok_xml else t)),
+                ('model whose decision logic is a string literal with the text', hostile_model('nss', 'ms', xml_escape(feel_string(t)) + ' + 1 +'))]
+        for what, doc in docs:
+            svc.req('POST', '/definitions/clear')
+            setup = [['POST', '/definitions/clear', None]]
+            content = jd({'content': b64(doc)})
+            ok_xml = all(XML_OK(ord(c)) for c in doc)
+            steps = [('add', 'POST', '/definitions/add', content, 'application/json', 'any' if ok_xml else 'errors'),
+                     ('add again', 'POST', '/definitions/add', content, 'application/json', 'errors'),
+                     ('deploy', 'POST', '/definitions/deploy', None, None, 'any'),
+                     ('evaluate by that model name', 'POST', '/evaluate/%s/dec' % (pct(t) if what.startswith('model named') else 'ml' if 'is the text' in what else 'ms'), '{}', 'text/plain', 'any'),
+                     ('tck evaluate by that model name', 'POST', '/tck/evaluate', jd({'model': t if what.startswith('model named') else 'ml', 'invocable': 'dec', 'input': []}), 'application/json', 'any'),
+                     ('replace', 'POST', '/definitions/replace', content, 'application/json', 'any' if ok_xml else 'errors'),
+                     ('remove', 'POST', '/definitions/remove', jd({'namespace': t, 'name': t}), 'application/json', 'any')]
+            for step, method, path, body, ctype, expect in steps:
+                judge(list(setup), '%s: %s' % (what, step), label, t, method, path, body, ctype, expect)
+                setup.append([method, path, body])
+    # (3) a request head above the limit of the HTTP layer (32 KiB in actix-http) never reaches a handler: whatever the HTTP layer answers
+    # (observed: 408 with an empty body) is recorded, not judged - the property speaks of the answers of the service's handlers
+    resp = svc.req('POST', '/evaluate/%s/dec' % ('h' * 40000), '{}', 'text/plain')
+    n_req += 1
+    ctx.cov['request_head_over_http_layer_limit'] = 'status %s, body %r' % (resp[0], resp[2][:80]) if resp[0] != 'transport' else 'no response: %s' % resp[1][:80]
+    if not svc.alive():
+        ctx.violation('after the failing requests with hostile text the service no longer answers GET /system/info', {'hostile': 'liveness'})
+    svc.req('POST', '/definitions/clear')
+    return n_req, hp, hc
+
+
 # ------------------------------------------------------------------ rendering correspondence
 def check_render_case(ctx, v_real, impl_cps, model_cps, decoded, case, where):
     """v_real: the value rendered; impl_cps: code points written by the implementation; model_cps: coq jsonify v;
@@ -870,6 +1119,11 @@ def run(ctx):
         hist = run_sequences(ctx, svc, seqs, alphabet)
         n_http += sum(len(s) for s in seqs)
         n_http += live_values(ctx, svc, kinds)
+        t4 = time.time()
+        hn, hplace, hclass = hostile_phase(ctx, svc)
+        n_http += hn
+        ctx.cov['hostile_failing_requests'] = {'requests': hn, 'seconds': round(time.time() - t4, 1), 'by_text_class': hclass, 'placements': len(hplace)}
+        ctx.cov['hostile_placements'] = hplace
     finally:
         svc.stop()
     ctx.cov['phase_seconds'] = {'proof_gate_incl_lock_wait': round(t1 - t0, 1), 'harness_build_incl_lock_wait': round(t2 - t1, 1),
@@ -879,11 +1133,22 @@ def run(ctx):
              'contexts; dates, times, durations, ranges, functions) rendered by Value::jsonify in process; (b) live service: %d request sequences over the C17 '
              'alphabet of six DMN documents x add/replace/remove/clear/deploy/evaluate/tck-evaluate mixed with malformed requests (bad JSON, type, content type, '
              'base64, UTF-8, XML, missing parameters, unknown endpoints, oversized bodies), constant and echo decisions returning generated values through '
-             '/evaluate and /tck/evaluate; non-trivial = value needing an escape or of a non-JSON kind / sequence with >= 2 faults and a replace or remove' % (len(vals), len(seqs)),
+             '/evaluate and /tck/evaluate; (c) failing requests with hostile text: for every endpoint that can fail (evaluate, tck/evaluate, definitions add / replace / remove / deploy, unknown '
+             'endpoints) requests that fail or may fail whose client-controlled parts - percent-encoded path segments (model, invocable, endpoint), the /evaluate body (malformed, spanning lines, '
+             'raw text inside a string), JSON string members in ASCII-escaped and raw UTF-8 form (model, invocable, input and component names, type names, lexical forms of 7 xsd types, content, '
+             'namespace, name, unknown members), Base64 content decoding to the text / to XML holding it, namespace / name / decision logic of a submitted model (add, add again, deploy, '
+             'evaluate by that name, replace, remove) - hold each of: quotation mark, reverse solidus, solidus, U+0000, U+0001, backspace, tab, LF, FF, CR, ESC, U+001F, U+007F, U+0085, '
+             'U+2028, U+2029, U+FFFF, two non-BMP characters, apostrophe, percent sign (alone, inside, at the end, doubled), 16 texts that are JSON escape sequences when copied unescaped '
+             '(dev\\bin, a\\nb, \\u0041, trailing reverse solidus ...), all of them at once, random mixes, texts of 40 k - 200 k characters; lone / reversed surrogate escapes and raw control '
+             'characters in JSON bodies; 14 malformed or unusual percent-encodings; against an empty workspace and one with a deployed model; every answer must parse strictly, hold exactly one of '
+             'data / errors (errors where the request cannot succeed) and must not echo the text as "the same characters read as JSON escapes"; '
+             'non-trivial = value needing an escape or of a non-JSON kind / sequence with >= 2 faults and a replace or remove / failing request whose text needs an escape' % (len(vals), len(seqs)),
         extra_cov={'exhaustive': False, 'http_requests': n_http, 'request_classes': hist, 'value_features': sorted(kinds)},
         assumptions=['the six DMN documents of the C17 alphabet stand for all models (the handlers look at namespace, name and buildability only)',
                      'error texts are not compared (only: errors member present, list of {details: text}, HTTP status 400 for bodies refused by the JSON extractor)',
-                     'the lexical forms of numbers and temporal values are the subject of C07 / C14; here they are leaves that must survive the transport unchanged'],
+                     'the lexical forms of numbers and temporal values are the subject of C07 / C14; here they are leaves that must survive the transport unchanged',
+                     'a request head above the limit of the HTTP layer (32 KiB in actix-http; e.g. a 40 k path segment) never reaches a handler; the answer of the HTTP layer '
+                     '(observed: status 408, empty body) is recorded in coverage.request_head_over_http_layer_limit and not judged; path segments of up to 30 k characters are judged'],
         trusted=['actix-web, serde_json, base64, TCP: exercised by the live correspondence, not modelled (level: partial for the transport)',
                  'the strict RFC 8259 parser of the Python driver is cross-checked against coq json_decode on every in-process case'])
 
@@ -1058,6 +1323,19 @@ def replay(ctx, path):
         return 1 if fail else 0
     svc = Service(exe)
     try:
+        if 'hostile' in case:
+            for method, path, body in case.get('setup', []):
+                print('%-5s %-40s -> %s' % (method, path[:40], str(svc.req(method, path, body, 'application/json' if body is not None else None))[:160]))
+            rq = case['replay_request']
+            body = base64.b64decode(rq['body_b64']).decode('utf-8') if rq.get('body_b64') is not None else None
+            resp = svc.req(rq['method'], rq['path'], body, rq['content_type'])
+            print('request :', rq['method'], rq['path'][:300], repr(body[:300]) if body is not None else '')
+            print('answer  :', str(resp)[:800])
+            t = ''.join(chr(c) for c in case['text']) if isinstance(case.get('text'), list) else ''
+            bad = hostile_verdict(resp, classify(resp), t, case.get('expect', 'any'))
+            print('alive   :', svc.alive())
+            print('REPRODUCED %s' % bad if bad else 'not reproduced (a well-formed result document with the expected member)')
+            return 1 if bad else 0
         if 'sequence' in case:
             alphabet = {a[0]: a for a in request_alphabet()}
             svc.req('POST', '/definitions/clear')
@@ -1109,6 +1387,6 @@ def replay(ctx, path):
 
 MANIFEST = dict(
     technique='Coq proof (JSON rendering round trip through a strict RFC 8259 parser by induction over values; service = C17 workspace state machine; TCK DTO round trip) with correspondence against the live HTTP service',
-    text='Theorems (coq/Props/C18.v, closed under the global context): for every value built from null/boolean/number/string/list/context the rendered text is accepted by a strict RFC 8259 parser and decodes to the value (every string and key: quotation marks, reverse solidus, control and non-ASCII characters), other kinds are rendered as JSON strings; every answer of the service model is a well-formed document with failures in the errors member; the endpoints behave as the same sequence of C17 workspace operations (replace = remove same namespace/name then add, always succeeds), rejected requests leave the state unchanged and do not disturb the requests that follow; TCK DTO conversion round-trips. The models are tied to the code by running Value::jsonify in process and the real service (start_server of the working tree, loopback) on generated values, request sequences and faults; every body is parsed strictly and compared with the model answer.',
+    text='Theorems (coq/Props/C18.v, closed under the global context): for every value built from null/boolean/number/string/list/context the rendered text is accepted by a strict RFC 8259 parser and decodes to the value (every string and key: quotation marks, reverse solidus, control and non-ASCII characters), other kinds are rendered as JSON strings; every answer of the service model is a well-formed document with failures in the errors member; the endpoints behave as the same sequence of C17 workspace operations (replace = remove same namespace/name then add, always succeeds), rejected requests leave the state unchanged and do not disturb the requests that follow; TCK DTO conversion round-trips. The models are tied to the code by running Value::jsonify in process and the real service (start_server of the working tree, loopback) on generated values, request sequences and faults; every body is parsed strictly and compared with the model answer; failing requests to every endpoint carry hostile text (quotation mark, reverse solidus, control characters, U+2028, non-BMP, escape look-alikes, very long text) in every client-controlled part and must still be answered by a well-formed document with an errors member.',
     note='Partial for the transport: actix-web, serde_json, TCP and worker threads are exercised (liveness probe after every fault), not modelled. Trusted: Coq kernel + vm_compute, hand-written models of values.rs/context.rs/strings.rs/server.rs/dto.rs (correspondence-checked), the Python HTTP client and strict parser (cross-checked against the Coq parser). Number and temporal lexical forms are leaves here (C07/C14).',
     category='proof')
